@@ -105,3 +105,5 @@ def run(ctx):
                "an edge is added when its parent OR its child is new" if oke else
                "edges are added only under %s: edges whose other end is the new node are dropped" % conds)
     lib_mem.c_lints(ctx, ctx.program(), scopes.lib_scope("C14"))
+    from . import lib_kind5
+    lib_kind5.validate_before_clear(ctx, ctx.program())
